@@ -10,7 +10,8 @@ Strats == {[strat |-> "leveled", sp |-> x] : x \in {"l1", "l2", "l3", "l4"}} \cu
 CfgsSim == {[strat |-> s.strat, sp |-> s.sp, blob |-> b, manual |-> m, mem |-> me, pol |-> p] :
               s \in Strats, b \in {"none", "b1", "b2"}, m \in BOOLEAN, me \in {"m1", "m2", "m3"}, p \in {"p1", "p2", "p3", "p4"}}
 
-Rec(a, n, c) == [a |-> a, n |-> n, c |-> c, live |-> live', inforce |-> [x \in live' |-> mem'[x].cfg]]
+Rec(a, n, c) == [a |-> a, n |-> n, c |-> c, live |-> live', inforce |-> [x \in live' |-> mem'[x].cfg],
+                 ids |-> [x \in live' |-> mem'[x].id]]
 SimInit == Init /\ hist = <<>>
 SimNext ==
     \/ \E n \in Names, c \in Cfgs : Create(n, c) /\ hist' = Append(hist, Rec("Create", n, c))
